@@ -995,6 +995,12 @@ func (cs *ContractSet) parseFile(path string) error {
 		case "opt":
 			k, v := splitWord(rest)
 			cur.Extra[k] = append(cur.Extra[k], v)
+			switch k {
+			case "lockhavoc":
+				cs.Scan = append(cs.Scan, fmt.Sprintf("%s.%s: partial interference model: other goroutines act only at the acquisition of the mutex (everything is forgotten there, the `rely` is ASSUMED of them); interference between other atomic steps is not modelled", pkg, cur.Key))
+			case "cellhavoc":
+				cs.Scan = append(cs.Scan, fmt.Sprintf("%s.%s: partial interference model: other goroutines act on the atomic cell before each atomic pointer operation of this function (subject to the ASSUMED `rely`); nothing interferes between its last atomic step and its return", pkg, cur.Key))
+			}
 		case "callback":
 			k, v := splitWord(rest)
 			cur.Callbacks[k] = v
